@@ -31,6 +31,16 @@ def _boom(node):
     raise SimCallbackError("finalize_node callback failed on purpose")
 
 
+def _fin(node):
+    # a callback with a visible effect that fails for some inputs only
+    a = node.nodeargd.argnlist[0] if node.nodeargd and node.nodeargd.argnlist else None
+    txt = a.latex_verbatim() if a is not None else ''
+    if 'bad' in txt or txt == '{}':
+        raise SimCallbackError("finalize_node callback refuses this argument")
+    node.macro_post_space = '<fin:%d>' % len(txt)
+    return node
+
+
 def _nest(node):
     # re-entrant use of the library: parse another document with the same
     # context before the outer parse continues
@@ -94,6 +104,8 @@ def build_k1(shared_instances=False):
     macros = [macrospec.MacroSpec(name, list(spec)) for name, spec in K1_MACROS]
     macros.append(macrospec.MacroSpec('boom', ['{'], finalize_node=_boom))
     macros.append(macrospec.MacroSpec('nest', ['{'], finalize_node=_nest))
+    macros.append(macrospec.MacroSpec('fin', ['{'], finalize_node=_fin))
+    macros.append(macrospec.MacroSpec('fim', ['[', '{'], finalize_node=_fin))
     macros.append(macrospec.MacroSpec(
         'defn', ['{'],
         make_after_parsing_state_delta=lambda parsed_node, latex_walker:
@@ -457,7 +469,8 @@ class DocGen(object):
                 return rng.choice(['{\\defs{x} a~~b &&{c} !w}', '\\defs{y}\\begin{denv}[o]z\\end{denv} ~~',
                                    'a~~b && c !w \\begin{denv}[o]z\\end{denv}', '~~ \\defs{z} ~~ &&{q}'])
             return '\\defn{x}' + rng.choice(['\\defd{y}', '\\defd[o]{y}', ' then \\defd{z} and \\mv{q{r}}'])
-        return rng.choice(['\\mb{\\mv{a{b}c}}', '\\mx*[\\mw{p{q}}]{r}', '\\mr(\\md<x>(y))', '\\mA[\\mB<z>]'])
+        return rng.choice(['\\mb{\\mv{a{b}c}}', '\\mx*[\\mw{p{q}}]{r}', '\\mr(\\md<x>(y))', '\\mA[\\mB<z>]',
+                           '\\fin{ok} t', '\\fim[o]{fine}', '\\fin{a\\mb{b}}', '\\mb{\\fin{in}}'])
 
     def document(self):
         depth = self.rng.choice([1, 2, 2, 3, 3, 4, 6])
